@@ -149,6 +149,21 @@ func vxTemplates() []vxTemplate {
 			},
 			edb: []ast.PredicateSym{vxP("pos", 1)}, idb: []ast.PredicateSym{vxP("win", 1), vxP("lose", 1), vxP("step", 1), vxP("hop", 1)},
 		},
+		{ // 13: structured values built separately must join, negate and compare by structure (not identity)
+			name: "structured-join",
+			rules: []ast.Clause{
+				vxRule(vxA("pr", "P"), vxA("e", "X", "Y"), ast.Eq{Left: ast.Variable{Symbol: "P"}, Right: vxFn(symbols.Pair, "X", "Y")}),
+				vxRule(vxA("sw", "Q"), vxA("e", "X", "Y"), ast.Eq{Left: ast.Variable{Symbol: "Q"}, Right: vxFn(symbols.Pair, "Y", "X")}),
+				vxRule(vxA("both", "P"), vxA("pr", "P"), vxA("sw", "P")),
+				vxRule(vxA("only", "P"), vxA("pr", "P"), vxNot(vxA("sw", "P"))),
+				vxRule(vxA("ne", "P", "Q"), vxA("pr", "P"), vxA("sw", "Q"), ast.Ineq{Left: ast.Variable{Symbol: "P"}, Right: ast.Variable{Symbol: "Q"}}),
+				vxRule(vxA("ls", "X", "L"), vxA("e", "X", "Y"), ast.Eq{Left: ast.Variable{Symbol: "L"}, Right: vxFn(symbols.List, "X", "Y")}),
+				vxRule(vxA("same", "X", "Y"), vxA("ls", "X", "L"), vxA("ls", "Y", "L")),
+			},
+			edb: []ast.PredicateSym{vxP("e", 2)},
+			idb: []ast.PredicateSym{vxP("pr", 1), vxP("sw", 1), vxP("both", 1), vxP("only", 1), vxP("ne", 2), vxP("ls", 2), vxP("same", 2)},
+			enum: 3,
+		},
 	}
 }
 
@@ -225,6 +240,7 @@ func VxC01Model() {
 	pi, err := vxAnalyze(t)
 	vxAssert(err == nil, "analysis-accepts-template")
 	err = EvalProgram(pi, store)
+	vxObserve("facts-after-eval", store.EstimateFactCount())
 	vxReach("evaluated")
 	vxAssert(err == nil, "eval-no-error")
 	unsafe, conv := ref.vxRefEval(t.rules, 50)
